@@ -1,6 +1,6 @@
 """C10 - preprocessing applies the documented steps in order; windows tile the record.
 
-E2 (bounded-exhaustive enumeration), three families of roots:
+E2 (bounded-exhaustive enumeration), five families of roots:
 
 * ``tiling``    - full product  rate x window length x record length, each
   executed through TimeSeries.split, SeismicRecording3C.split and
@@ -8,12 +8,25 @@ E2 (bounded-exhaustive enumeration), three families of roots:
   distinct sample values, so every returned window can be located in the
   record; the observed layout is judged by the exact-rational reference
   ``hvmc.ref.tiling`` (k = floor(Fraction(window) * rate)).
+* ``tiling-huge`` - the same three call sites and the same reference for windows
+  of more than two million sample intervals (k between 2.1e6 and 3e6) and
+  records of {k-1, k, k+1, 2k-1, 2k, 2k+1} samples, one record per root:
+  quotients n/k within 5e-7 of a whole number must not be rounded (k-1
+  samples: refusal; 2k-1 samples: ONE window).  Quick runs the decisive
+  lengths of two (rate, window) pairs, thorough all lengths of five pairs.
 * ``order``     - rate x window x record length x filter corners x detrend x
   orientation x number of recordings (quick: every case within 3 deviations of
   the default; thorough: the full product).  ``preprocess`` must equal, bit
   for bit, the pipeline assembled from the public primitives in the
   documented order; two observably wrong orders are evaluated as well and
   must differ somewhere (non-vacuity, asserted in ``finalize``).
+* ``unsplit``   - ``window_length_in_seconds=None`` (no splitting, the whole
+  record is the single window): full product rate x record length x filter
+  corners x detrend x orientation x number of recordings in both tiers;
+  ``preprocess`` must return one element per recording, equal to orient ->
+  whole-record Butterworth -> detrend of the whole record with the REQUESTED
+  type (bitwise; rtol 1e-9 with an orientation).  That the other detrend type
+  gives a different record is asserted in ``finalize``.
 * ``zerophase`` - per rate and corner combination: filtering the time-reversed
   record equals the time-reversed output, and a sinusoid at a corner frequency
   comes out with no quadrature component.
@@ -43,6 +56,17 @@ DETREND = ["linear", "constant", "none", None]
 ORIENT = [None, 0, 40]
 NREC = ["one", "three"]
 
+# huge windows (more than 2e6 sample intervals each): (rate, window, record lengths in the quick tier)
+HUGE_LENGTHS = ["k-1", "k", "k+1", "2k-1", "2k", "2k+1"]
+HUGE = [(500, "5000", ["k-1", "2k-1", "2k"]),
+        (1000, "2500.5", ["k-1", "2k-1"]),
+        (300, "8000", []),
+        (75, "28000.01", []),
+        (128, "16500", [])]
+
+# preprocess without splitting (window_length_in_seconds=None); record lengths with k = 1 s of samples
+UNSPLIT_LENGTHS = ["3k+2", "k-1", "5k", "25"]
+
 SPACE = dict(rate=RATES, window=WINDOWS, length=LENGTHS, corners=CORNERS,
              detrend=DETREND, orient=ORIENT, nrec=NREC)
 QUICK_DEVIATIONS = 3
@@ -56,7 +80,9 @@ COMPONENTS = ("ns", "ew", "vt")
 # alphabets
 
 def n_samples_of(label, k):
-    """Record length in samples for a label such as '3k+2'."""
+    """Record length in samples for a label such as '3k+2' (or an absolute count such as '25')."""
+    if "k" not in label:
+        return int(label)
     mult, _, rest = label.partition("k")
     n = (int(mult) if mult else 1) * k
     if rest:
@@ -123,7 +149,7 @@ def make_settings(window, corners, detrend, orient):
     return hvsrpy.settings.HvsrPreProcessingSettings(
         orient_to_degrees_from_north=orient,
         filter_corner_frequencies_in_hz=list(corners),
-        window_length_in_seconds=float(window),
+        window_length_in_seconds=None if window is None else float(window),
         detrend=detrend)
 
 
@@ -181,7 +207,10 @@ def layout_problems(outcome, layouts, n, k):
     if probs:
         kk = RT.consistent_k(lay, n, near=k)
         if kk is not None and kk != k:
-            return [("k", f"the windows tile the record with {kk} sample intervals per window; the "
+            # the refusal clause is reported under its own tag as well: "a window longer than the
+            # record is an error" is broken whatever the reason for the shorter window is
+            return [p for p in probs if p[0] == "no-refusal"] + \
+                   [("k", f"the windows tile the record with {kk} sample intervals per window; the "
                           f"requested length holds {k} whole intervals")]
     return probs
 
@@ -192,7 +221,11 @@ def run_tiling(root, ctx, tier):
     k = RT.intervals(window, rate)
     wlen = float(window)
     rcls = rate_class(rate)
-    for label in LENGTHS:
+    huge = root.get("kind") == "tiling-huge"
+    if huge:
+        # one record of a few million samples at a time; fewer call variants (memory, time)
+        rcls += "-huge-window"
+    for label in root.get("lengths", LENGTHS):
         n = n_samples_of(label, k)
         if n < 1:
             continue
@@ -202,6 +235,10 @@ def run_tiling(root, ctx, tier):
         ctx.count("states")
         if len(exp["layouts"]) and len(exp["layouts"][-1]) >= 2:
             ctx.nontrivial_case(("tiling", rate, window, label))
+        if huge:
+            ctx.count("huge_window_cases")
+            if n == k - 1 or n == 2 * k - 1:
+                ctx.count("huge_window_cases_one_sample_short_of_a_whole_number_of_windows")
 
         def report(site, probs, outcome, lay, skip=(), case=case):
             for tag, text in probs:
@@ -227,7 +264,10 @@ def run_tiling(root, ctx, tier):
             lay = None
             if out[0] == "ok":
                 lay = [locate(comps[cname], w.amplitude) for w in out[1]]
-                base_windows[cname] = [w.amplitude for w in out[1]]
+                if huge and all(w is not None for w in lay):
+                    base_windows[cname] = ("located", lay)      # bit-exact runs of the record: the layout says it all
+                else:
+                    base_windows[cname] = [w.amplitude for w in out[1]]
                 if not bitwise_equal(ts.amplitude, comps[cname]):
                     ctx.violation(f"C10:split:{rcls}:record-altered", root, detail=dict(case, site="split"),
                                   explanation="TimeSeries.split altered the record it splits")
@@ -235,6 +275,9 @@ def run_tiling(root, ctx, tier):
                 base_windows[cname] = out[1]
             probs = layout_problems(out, [lay], n, k)
             ctx.count("validated")
+            if huge:
+                del ts
+                out = out[:1] + ((None,) if out[0] == "ok" else out[1:])
             if cname == "ns":
                 base_tags = {t for t, _ in probs}
                 shape = "raised" if out[0] == "raised" else \
@@ -251,8 +294,9 @@ def run_tiling(root, ctx, tier):
         self_check_3c(ctx, root, case, rcls, "split3c", out, comps, base_windows, n, k, base_tags, report)
 
         # --- preprocess, filter and detrend off ---------------------------------
-        for detrend in ("none", None):
-            for nrec in ("list1", "three"):
+        del rec, out
+        for detrend in (("none",) if huge else ("none", None)):
+            for nrec in (("list1",) if huge else ("list1", "three")):
                 recs = [make_record(comps, dt)]
                 if nrec == "three":
                     recs = [make_record(comps, dt) for _ in range(3)]
@@ -277,7 +321,9 @@ def run_tiling(root, ctx, tier):
                 else:
                     self_check_3c(ctx, root, dict(case, detrend=detrend, recordings=len(recs)),
                                   rcls, site, out, comps, base_windows, n, k, base_tags, report)
-        if len(ctx.samples) < 2 and label == "2k":
+                del recs, out
+        del comps, base_windows
+        if len(ctx.samples) < 2 and label == "2k" and not huge:
             ctx.sample(dict(kind="tiling", case=case, admissible_layouts=exp["layouts"]))
 
 
@@ -295,12 +341,15 @@ def self_check_3c(ctx, root, case, rcls, site, out, comps, base_windows, n, k, b
         b = base_windows.get(c)
         if isinstance(b, str) or out[0] == "raised":
             same = isinstance(b, str) and out[0] == "raised"
+        elif isinstance(b, tuple):          # ("located", layout) - huge records keep the layout only
+            same = lays[COMPONENTS.index(c)] == b[1]
         else:
             same = len(b) == len(out[1]) and all(
                 bitwise_equal(x, getattr(w, c).amplitude) for x, w in zip(b, out[1]))
         if not same:
             ctx.violation(f"C10:{site}:{rcls}:vs-TimeSeries.split", root, detail=dict(case, site=site, component=c),
-                          expected="raises" if isinstance(b, str) else [len(x) for x in b][:8],
+                          expected="raises" if isinstance(b, str) else
+                          [m for _, m in b[1]][:8] if isinstance(b, tuple) else [len(x) for x in b][:8],
                           observed=out[1:] if out[0] == "raised" else
                           [len(getattr(w, c).amplitude) for w in out[1]][:8],
                           explanation=f"{site}: component {c} is not split like TimeSeries.split splits "
@@ -337,6 +386,8 @@ def _ts_filter(a, dt, corners):
 
 
 def _ts_split(a, dt, wlen):
+    if wlen is None:            # no splitting: the whole record is the single window
+        return [a]
     return [w.amplitude for w in TimeSeries(a, dt).split(wlen)]
 
 
@@ -500,6 +551,84 @@ def run_order(root, ctx, tier):
 
 
 # ---------------------------------------------------------------------------
+# order of the steps when no splitting is requested (window_length_in_seconds=None)
+
+def run_unsplit(root, ctx, tier):
+    """preprocess(window=None) == orient -> filter whole record -> (no split) -> detrend whole record.
+
+    Full product corners x detrend x orientation x {1, 3} recordings under every
+    (rate, record length) root; one returned element per recording.
+    """
+    rate, label = root["rate"], root["length"]
+    dt = dt_of(rate)
+    k = rate                     # one second of samples: only scales the record lengths
+    n = n_samples_of(label, k)
+    if n < 2:
+        return
+    cache = {}
+    for ci, di, oi, ni in root["cases"]:
+        corners, detrend, orient, nrec = CORNERS[ci], DETREND[di], ORIENT[oi], NREC[ni]
+        specs = record_specs(rate, n, k, nrec, cache)
+        case = dict(rate=rate, dt=dt, window=None, n_samples=[len(comps["ns"]) for comps, _ in specs],
+                    corners=corners, detrend=detrend, orient=orient, recordings=nrec, records=BUSY_TEXT)
+        ctx.count("states")
+        ctx.count("unsplit_cases")
+        scale = max(float(np.max(np.abs(comps[c]))) for comps, _ in specs for c in COMPONENTS)
+        recs = [make_record(comps, dt, dfn) for comps, dfn in specs]
+        settings = make_settings(None, corners, detrend, orient)
+        arg = recs[0] if nrec == "one" else recs
+        obs = _call(lambda: hvsrpy.preprocess(arg, settings))
+        ctx.count("transitions")
+        exp = _call(lambda: pipeline(specs, dt, None, corners, detrend, orient))
+        ctx.count("validated")
+        filt = corners != [None, None]
+        detr = detrend not in (None, "none")
+        cls = ("filter" if filt else "nofilter") + "+" + ("detrend-" + detrend if detr else "nodetrend") \
+            + ("+orient" if orient is not None else "")
+        if obs[0] == "raised" or exp[0] == "raised":
+            ctx.outcome(("unsplit", cls, obs[0], obs[1] if obs[0] == "raised" else None))
+            if obs[0] != exp[0] or obs[1] != exp[1]:
+                ctx.violation(f"C10:preprocess-unsplit:{cls}:raises-unlike-primitives", root, detail=case,
+                              expected=exp[1:] if exp[0] == "raised" else f"{len(exp[1])} windows",
+                              observed=obs[1:] if obs[0] == "raised" else f"{len(obs[1])} windows",
+                              explanation="preprocess(window_length_in_seconds=None) and the documented "
+                                          "sequence of public primitives do not fail alike")
+            else:
+                ctx.count("unsplit_cases_both_refuse")
+            continue
+        if not isinstance(obs[1], (list, tuple)) or len(obs[1]) != len(specs):
+            ctx.violation(f"C10:preprocess-unsplit:{cls}:one-window-per-recording", root, detail=case,
+                          expected=f"a list of {len(specs)} element(s)",
+                          observed=f"{type(obs[1]).__name__} of {len(obs[1]) if hasattr(obs[1], '__len__') else '?'}",
+                          explanation="without splitting every recording is its own single window")
+            continue
+        got = [tuple(getattr(w, c).amplitude for c in COMPONENTS) for w in obs[1]]
+        ctx.outcome(("unsplit", cls, len(got)))
+        if filt or detr:
+            ctx.nontrivial_case(("unsplit", rate, label, ci, di, oi, ni))
+        text = compare_windows(got, exp[1], exact=orient is None, scale=scale)
+        if text is not None:
+            ctx.violation(f"C10:preprocess-unsplit:{cls}:order", root, detail=case,
+                          expected="orient -> Butterworth on the whole record -> (no split) -> detrend the "
+                                   f"whole record with type {detrend!r}, from TimeSeries.butterworth_filter/"
+                                   "detrend and SeismicRecording3C.orient_sensor_to",
+                          observed=text,
+                          explanation=f"preprocess(window_length_in_seconds=None) output is not the "
+                                      f"documented pipeline: {text}")
+        # non-vacuity: the other detrend type gives an observably different record
+        if detr and nrec == "one" and orient is None:
+            other = "constant" if detrend == "linear" else "linear"
+            w = _call(lambda: pipeline(specs, dt, None, corners, other, orient))
+            ctx.count("unsplit_other_detrend_evaluated")
+            if w[0] == "raised" or compare_windows(w[1], exp[1], exact=False, scale=scale) is not None:
+                ctx.count("unsplit_other_detrend_differs")
+        if len(ctx.samples) < 6 and filt and detrend == "constant" and nrec == "three" and orient is not None \
+                and not ctx.notes.get("unsplit_sampled"):
+            ctx.notes["unsplit_sampled"] = 1
+            ctx.sample(dict(kind="unsplit", case=case, windows=len(got), first_window_ns_head=got[0][0][:3]))
+
+
+# ---------------------------------------------------------------------------
 # zero phase
 
 def run_zerophase(root, ctx, tier):
@@ -591,8 +720,18 @@ def roots(tier, seed):
     for rate in RATES:
         for window in WINDOWS:
             out.append(dict(kind="tiling", rate=rate, window=window))
+    # huge windows: one root per record (a few million samples each)
+    for rate, window, quick_lengths in HUGE:
+        for label in (quick_lengths if tier == "quick" else HUGE_LENGTHS):
+            out.append(dict(kind="tiling-huge", rate=rate, window=window, lengths=[label]))
     for rate in RATES:
         out.append(dict(kind="zerophase", rate=rate))
+    # no splitting: full product of the option dimensions under every (rate, record length)
+    unsplit_cases = [[ci, di, oi, ni] for ci in range(len(CORNERS)) for di in range(len(DETREND))
+                     for oi in range(len(ORIENT)) for ni in range(len(NREC))]
+    for rate in RATES:
+        for label in UNSPLIT_LENGTHS:
+            out.append(dict(kind="unsplit", rate=rate, length=label, cases=unsplit_cases))
     groups = {}
     cases, _ = _order_cases(tier)
     for c in cases:
@@ -607,8 +746,10 @@ def roots(tier, seed):
 
 def run_root(root, ctx, tier):
     kind = root.get("kind")
-    if kind == "tiling":
+    if kind in ("tiling", "tiling-huge"):
         run_tiling(root, ctx, tier)
+    elif kind == "unsplit":
+        run_unsplit(root, ctx, tier)
     elif kind == "order":
         run_order(root, ctx, tier)
     elif kind == "zerophase":
@@ -627,29 +768,51 @@ def finalize(ctx, tier):
                           observed=dict(evaluated=c.get("wrong_order_evaluated:" + wrong, 0), differs=0),
                           explanation=f"the wrong order '{wrong}' never differed from the documented one: "
                                       "the order oracle cannot fail on the enumerated cases")
+    if c.get("unsplit_cases", 0) and not c.get("unsplit_other_detrend_differs", 0):
+        ctx.violation("C10:harness:non-vacuity:unsplit-detrend-type", dict(kind="non-vacuity"),
+                      observed=dict(evaluated=c.get("unsplit_other_detrend_evaluated", 0), differs=0),
+                      explanation="with window_length_in_seconds=None the detrend types never differed: the "
+                                  "unsplit order oracle cannot tell which type was applied")
     if not c.get("order_cases_both_refuse", 0) and tier != "quick":
         ctx.notes["no_refusal_in_order_cases"] = 1
 
 
 def describe(tier):
     _, n_order = _order_cases(tier)
+    huge = [(r, w, q) for r, w, q in HUGE if tier != "quick" or q]
+    n_huge = sum(len(q) if tier == "quick" else len(HUGE_LENGTHS) for _, _, q in huge)
+    n_unsplit = len(RATES) * len(UNSPLIT_LENGTHS) * len(CORNERS) * len(DETREND) * len(ORIENT) * len(NREC)
     return dict(
         rule="tiling: full product of 7 sampling rates x 6 window lengths (decimal strings) x 12 record "
              "lengths {k-1..5k+1 samples}, each through TimeSeries.split (3 signals), SeismicRecording3C.split "
              "and preprocess (filter off, detrend 'none'/None, 1 or 3 recordings), windows located in "
              "records with pairwise distinct samples and judged by the exact-rational tiling reference; "
+             f"huge windows: {len(huge)} (rate, window) pairs with 2.1e6 <= k <= 3e6 sample intervals per window x "
+             + ("the decisive record lengths (k-1 and 2k-1 samples for both pairs, 2k for one)" if tier == "quick"
+                else "record lengths {k-1, k, k+1, 2k-1, 2k, 2k+1} samples") +
+             f" ({n_huge} records of up to 6 million samples), same call sites (preprocess with detrend 'none', one "
+             "recording) and same reference; "
              "order: " + (f"every case within {QUICK_DEVIATIONS} deviations of the default" if tier == "quick"
                           else "the full product") +
              f" of rate x window x record length x 4 corner pairs x 4 detrend modes x 3 orientations x "
              f"{{1, 3}} recordings ({n_order} cases), preprocess compared with the documented pipeline of "
-             "public primitives (bitwise; rtol 1e-9 when an orientation is applied); zero-phase: 7 rates x 3 "
+             "public primitives (bitwise; rtol 1e-9 when an orientation is applied); "
+             f"unsplit: window_length_in_seconds=None, full product of 7 rates x {len(UNSPLIT_LENGTHS)} record "
+             f"lengths x 4 corner pairs x 4 detrend modes x 3 orientations x {{1, 3}} recordings ({n_unsplit} cases), "
+             "preprocess compared with orient -> whole-record filter -> detrend of the whole record with the "
+             "requested type, one element per recording; zero-phase: 7 rates x 3 "
              "corner pairs x {burst, noise, corner sinusoids} on 40 s records.  A tiling case is non-trivial "
              "when the reference layout has >= 2 windows, an order case when it yields >= 2 windows with "
-             "filter or detrend active; cases are distinct by their parameters",
+             "filter or detrend active, an unsplit case when filter or detrend is active; cases are distinct "
+             "by their parameters",
         bounds=dict(rates=RATES, windows=WINDOWS, record_lengths=LENGTHS, corners=CORNERS,
                     detrend=DETREND, orientations=ORIENT, recordings=NREC,
                     order_deviation_bound=QUICK_DEVIATIONS if tier == "quick" else "full product",
-                    order_cases=n_order),
+                    order_cases=n_order,
+                    huge_windows=[dict(rate=r, window=w, k=RT.intervals(w, r),
+                                       record_lengths=q if tier == "quick" else HUGE_LENGTHS)
+                                  for r, w, q in huge],
+                    unsplit_record_lengths=UNSPLIT_LENGTHS, unsplit_cases=n_unsplit),
         exhaustive=True,
         assumptions=[
             "dt is passed as the correctly rounded double of 1/rate and the window length as float(decimal string)",
@@ -660,6 +823,11 @@ def describe(tier):
             "same rate/window/length grid; the rotation itself is C04's subject)",
             "where the rotation is applied in the sequence is not observable beyond rounding; cases with an "
             "orientation are compared with rtol 1e-9 (atol 1e-9 of the record's largest sample)",
+            "unsplit record lengths are labelled with k = one second of samples ('25' is an absolute count, "
+            "short enough for the band-pass filter to refuse: preprocess and the primitives must fail alike); "
+            "with 3 recordings their lengths are n, n+k, n-1 and the second is deployed at 15 degrees",
+            "huge-window records are built and freed one at a time (about 0.5 GB per worker at the peak); "
+            "window lengths of more than 3e6 intervals are not enumerated",
             "time-reversal symmetry of the filter is compared on the whole record for a burst surrounded by "
             "zeros and on the middle third for noise (edge transients of a 1 Hz corner need about 13 s to decay)",
             "the filter order is not pinned; only a zero quadrature response and a gain in [0.25, 0.75] at "
